@@ -115,8 +115,9 @@ def run_histories(res, rd, name, cases, module="TraceValue.tla", cfg="TraceValue
         fails.append((None, 0, reasons, e2))
     res.report_fails(fails, viol_dir)
     res.checker_cmds.append("vdrive run %s; TRACE=<shard> tlc -config %s %s (POSTCONDITION TraceAccepted)" % (os.path.basename(cf), cfg, module))
-    if v["unvalidated_shards"]:
+    if v["unvalidated_shards"] and not res.violations:
         raise vlib.Broken("too many rejected histories to finish validation")
+    res.extra["shards_not_fully_validated_after_rejections"] = v["unvalidated_shards"]
     return v
 
 
@@ -184,10 +185,18 @@ def gen_ta_history(rng, nsteps, queries=True):
             steps.append(["moveassign", h, g])
             live.discard(g)
             size[h] = size[g]
-        elif r < 0.86:
+        elif r < 0.85:
             steps.append(["destroy", h])
             live.discard(h)
-        elif r < 0.94 and dead and size[h] <= 9:
+        elif r < 0.89 and len(live) > 1:
+            g = rng.choice(sorted(live - {h}))
+            if size[g] <= 9:
+                if rng.random() < 0.6:
+                    steps.append(["reindexinto", h, g, rng.randrange(3), rng.random() < 0.7])
+                else:
+                    steps.append(["copytrans", h, g, sorted(rng.sample([0, 1, 2], rng.randint(1, 2)))])
+                size[h] += size[g]
+        elif r < 0.95 and dead and size[h] <= 9:
             d = rng.choice(dead)
             if rng.random() < 0.55:
                 steps.append(["derive", d, rng.choice(DERIVE1), h])
